@@ -200,9 +200,10 @@ class Unit:
     def __repr__(self): return "<Unit %s %s %s>" % (self.pkg, self.crate, self.tag)
 
 class Facts:
-    def __init__(self, directory):
+    def __init__(self, directory, views=True):
         self.dir = directory
         self.units = []
+        self.views = views; self._vcache = {}
         seen = set()
         for f in sorted(glob.glob(os.path.join(directory, "*.json"))):
             base = os.path.basename(f)
@@ -223,7 +224,52 @@ class Facts:
             if u.is_test != test: continue
             if u.crate == "build_script_build" and not include_build: continue
             for b in u.bodies:
-                yield b
+                if self.views and self.is_absorbed_helper(b): continue
+                yield self.view(b)
+    def is_absorbed_helper(self, b):
+        """a private helper function the rules do not know by name, all of whose uses are direct calls that the views inline:
+        it is analysed as part of its callers, not on its own"""
+        if b.promoted is not None:
+            owner = [x for x in b.unit.bodies if x.promoted is None and x.path == b.path]
+            return bool(owner) and self.is_absorbed_helper(owner[0])
+        if b.unit.is_test or b.unit.crate == "build_script_build": return False
+        k = ("absorbed", id(b.unit))
+        if k not in self._vcache:
+            from .known_private import KNOWN_PRIVATE
+            cands = {x.path for x in b.unit.bodies if x.promoted is None and x.kind != "Closure" and x.public is False and x.impl_trait is None and (x.pkg, x.path) not in KNOWN_PRIVATE}
+            called = set(); escaped = set()
+            for x in b.unit.bodies:
+                for blk in x.d["blocks"]:
+                    t = blk["term"]
+                    if t.get("t") == "call" and "callee" in t:
+                        c = t["callee"]
+                        for pth in (c.get("resolved"), c.get("path")):
+                            if pth in cands and pth != x.path: called.add(pth)
+                        for a in t.get("args", []):
+                            fn = (a.get("k") or {}).get("fn") if isinstance(a, dict) else None
+                            if fn in cands: escaped.add(fn)
+                    for st in blk["stmts"]:
+                        for o in (st.get("rv") or {}).get("ops", []) if st.get("s") == "assign" else []:
+                            fn = (o.get("k") or {}).get("fn") if isinstance(o, dict) else None
+                            if fn in cands: escaped.add(fn)
+            self._vcache[k] = (called - escaped)
+        if b.kind == "Closure":
+            # closures of an absorbed helper travel with it
+            par = b.parent
+            while par:
+                if par in self._vcache[k]: return True
+                nxt = [x for x in b.unit.bodies if x.promoted is None and x.path == par]
+                par = nxt[0].parent if nxt else None
+            return False
+        return b.path in self._vcache[k]
+    def view(self, b):
+        """b with private helper functions the rules do not know by name inlined (see vlib/inline.py, vlib/known_private.py)"""
+        if not self.views or b.promoted is not None: return b
+        k = id(b)
+        if k not in self._vcache:
+            from .inline import inline_unknown_private
+            self._vcache[k] = inline_unknown_private(self, b)
+        return self._vcache[k]
     def find(self, pkg, path_pat, exact=False, promoted=False):
         """bodies in non-test units of pkg whose def-path matches"""
         out = []
@@ -240,3 +286,14 @@ class Facts:
 
 class AnchorMissing(Exception):
     pass
+
+
+def promoted_body(body, dbg):
+    """the promoted-constant body a `<path>::promoted[i]` reference names (the owner may be a callee inlined into `body`)"""
+    dbg = str(dbg)
+    if "::promoted[" not in dbg: return None
+    owner = dbg.split("::promoted[")[0].strip('"')
+    idx = int(dbg.split("promoted[")[1].split("]")[0])
+    cands = [b for b in body.unit.bodies if b.promoted == idx and b.path == owner]
+    if not cands: cands = [b for b in body.unit.bodies if b.promoted == idx and b.path == body.path]
+    return cands[0] if cands else None
